@@ -87,13 +87,17 @@ func (o *Oracle) IsInterfaceNil() bool { return o == nil }
 
 // Notifier records the subscribers the factory registers.
 type Notifier struct {
-	Subs []vmcommon.EpochSubscriberHandler
-	n    uint64
+	Subs  []vmcommon.EpochSubscriberHandler
+	Start *uint32 // when set: every new subscriber is told this epoch at once, as a node's notifier tells the current epoch on registration
+	n     uint64
 }
 
 // RegisterNotifyHandler -
 func (n *Notifier) RegisterNotifyHandler(h vmcommon.EpochSubscriberHandler) {
 	n.Subs = append(n.Subs, h)
+	if n.Start != nil {
+		h.EpochConfirmed(*n.Start, 0)
+	}
 }
 
 // IsInterfaceNil -
@@ -122,6 +126,7 @@ type GasScheduler interface {
 
 // Shard is one shard of the world.
 type Shard struct {
+	StartEpoch *uint32 // set before BuildContainer: the notifier confirms this epoch to every subscriber at registration
 	Idx       int // index in World.Shards (the metachain shard, when present, is the last one)
 	ID        uint32
 	N         uint32
@@ -268,7 +273,7 @@ func (s *Shard) put(a *Account) { s.Accounts[string(a.Addr)] = a.Clone(s) }
 
 // BuildContainer creates the factory-built container of this shard.
 func (s *Shard) BuildContainer(gas map[string]map[string]uint64, dns map[string]struct{}, enableChange bool, activation uint32) error {
-	s.Notifier = &Notifier{}
+	s.Notifier = &Notifier{Start: s.StartEpoch}
 	s.Marsh = &Marshalizer{F: &s.Faults}
 	f, err := builtInFunctions.NewBuiltInFunctionsFactory(builtInFunctions.ArgsCreateBuiltInFunctionContainer{
 		GasMap:                              gas,
